@@ -253,8 +253,8 @@ def corpus_batch(tier, budget_s, key_fn=None, only=None):
                 v0 = tb.classify(r0, res0)
                 account(r0, res0, v0)
                 if v0 is not None:
-                    if v0[0] == "timeout":
-                        note("skipped: simulated run exceeds its wall-clock limit")
+                    if v0[0] in ("timeout", "step-budget"):
+                        note("skipped: simulated run exceeds its wall-clock limit or step budget (corpus programs are not bounded by construction)")
                         continue
                     violations.append((r0, res0, v0, built[k]))
                     keep = True
@@ -283,8 +283,8 @@ def corpus_batch(tier, budget_s, key_fn=None, only=None):
                         continue
                 account(r1, res1, v1)
                 if v1 is not None:
-                    if v1[0] == "timeout":
-                        note("skipped: simulated run exceeds its wall-clock limit")
+                    if v1[0] in ("timeout", "step-budget"):
+                        note("skipped: simulated run exceeds its wall-clock limit or step budget (corpus programs are not bounded by construction)")
                         continue
                     violations.append((r1, res1, v1, built[k]))
                     keep = True
